@@ -524,7 +524,14 @@ impl std::io::Write for FileSpillWriter {
         if datafusion_common::verif::point("dm_write_fault", &[len as i64]) != 0 {
             self.file = std::fs::OpenOptions::new().write(true).open("/dev/full")?;
         }
-        self.file.write_all(buf).map_err(DataFusionError::IoError)?;
+        if let Err(e) = self.file.write_all(buf) {
+            // The bytes were charged to the global counter above but are not
+            // charged to the file, so nothing would ever release them
+            self.disk_manager
+                .used_disk_space
+                .fetch_sub(len, Ordering::Relaxed);
+            return Err(DataFusionError::IoError(e).into());
+        }
 
         #[cfg(datafusion_verif)]
         datafusion_common::verif::point("dm_w_file", &[len as i64]);
